@@ -170,6 +170,9 @@ impl Executor {
             queue: SendWrapper::new(TaskQueue::new(config.local_queue_size)),
         }));
 
+        #[cfg(compio_verif)]
+        crate::verif::shared_new(ptr as *const ());
+
         Self {
             config,
             ptr: unsafe { NonNull::new_unchecked(ptr) },
@@ -267,6 +270,8 @@ impl Executor {
 impl Drop for Executor {
     fn drop(&mut self) {
         self.clear();
+        #[cfg(compio_verif)]
+        crate::verif::shared_free(self.ptr.as_ptr() as *const ());
         unsafe { drop(Box::from_raw(self.ptr.as_ptr())) };
     }
 }
